@@ -149,6 +149,37 @@ fn check_tree(tree: &mut DiskBPlusTree, cfg: &Cfg, model: &Model) -> Result<(), 
 			return Err(("range-mismatch".into(), format!("range(..) = [{}], expected [{}]", names(&got), names(&expect))));
 		}
 	}
+	// bounded range scans: stored keys as bounds (first / middle / last), every inclusive /
+	// exclusive combination - the end bound usually lies in a later leaf than the start
+	if expect.len() >= 2 {
+		use std::ops::Bound;
+		let n = expect.len();
+		for (a, b) in [(0usize, n - 1), (0, n / 2), (n / 2, n - 1)] {
+			if a >= b {
+				continue;
+			}
+			for lo_incl in [true, false] {
+				for hi_incl in [true, false] {
+					let lo_k: &[u8] = &expect[a].0;
+					let hi_k: &[u8] = &expect[b].0;
+					let lo = if lo_incl { Bound::Included(lo_k) } else { Bound::Excluded(lo_k) };
+					let hi = if hi_incl { Bound::Included(hi_k) } else { Bound::Excluded(hi_k) };
+					let it = tree.range((lo, hi)).map_err(|e| ("op-error:range".to_string(), format!("bounded range: {e}")))?;
+					let mut got = vec![];
+					for e in it {
+						let (k, v) = e.map_err(|e| ("op-error:range".to_string(), format!("bounded range item: {e}")))?;
+						got.push((k.to_vec(), v.to_vec()));
+					}
+					let from = if lo_incl { a } else { a + 1 };
+					let to = if hi_incl { b + 1 } else { b };
+					let exp: Vec<(Vec<u8>, Vec<u8>)> = if from < to { expect[from..to].to_vec() } else { vec![] };
+					if got != exp {
+						return Err(("bounded-range-mismatch".into(), format!("range({}k#{a}, k#{b}{}) = [{}], expected [{}]", if lo_incl { "[" } else { "(" }, if hi_incl { "]" } else { ")" }, names(&got), names(&exp))));
+					}
+				}
+			}
+		}
+	}
 	// cursor forward / backward / seek
 	{
 		let mut it = tree.internal_iterator();
@@ -231,7 +262,7 @@ fn seed_state(cfg: &Cfg, dir: &Path) -> Result<State, String> {
 		for k in &cfg.prefill {
 			apply(&mut t, cfg, &mut model, &Bop::Insert(*k, 0)).map_err(|e| e.1)?;
 		}
-		check_tree(&mut t, cfg, &model).map_err(|e| format!("seed check: {}", e.1))?;
+		check_tree(&mut t, cfg, &model).map_err(|e| format!("SEED-VIOLATION:{}:{}", e.0, e.1))?;
 		t.flush().map_err(|e| format!("{e}"))?;
 	}
 	Ok(State {
@@ -552,6 +583,18 @@ fn growth_pass(cfg: &Cfg, order: &str, n: usize, transitions: &mut u64) -> Resul
 fn growth_configs() -> Vec<(Cfg, usize)> {
 	vec![
 		(
+			// one value of ~1500 pages: deleting it frees more pages than one free-list trunk holds
+			Cfg {
+				name: "growth-free-list-overflow",
+				timestamp_cmp: false,
+				key_len: 8,
+				nkeys: 2,
+				sizes: vec![6_200_000, 64],
+				prefill: vec![],
+			},
+			2,
+		),
+		(
 			Cfg {
 				name: "growth-medium-keys",
 				timestamp_cmp: false,
@@ -613,6 +656,17 @@ pub fn check(tier: Tier) -> i32 {
 		let depth = if cfg.name == "big-keys-3-levels" || cfg.name == "timestamp-order" { depth + 1 } else { depth };
 		match bfs(&cfg, depth, max_states, &budget, &mut states, &mut transitions, &mut completed, &mut found) {
 			Ok(c) => all_complete &= c,
+			Err(e) if e.starts_with("SEED-VIOLATION:") => {
+				// the prefilled seed tree already disagrees with the model
+				let rest = e.trim_start_matches("SEED-VIOLATION:");
+				let (class, text) = rest.split_once(':').unwrap_or((rest, ""));
+				found.push(Found {
+					class: format!("seed:{class}"),
+					text: format!("[{} seed: {} ascending inserts] {text}", cfg.name, cfg.prefill.len()),
+					replay: replay_json(&cfg, "bfs", &[]),
+				});
+				all_complete = false;
+			}
 			Err(e) => {
 				eprintln!("machinery: {e}");
 				return 2;
@@ -650,6 +704,9 @@ pub fn check(tier: Tier) -> i32 {
 			Ok(c) => {
 				all_complete &= c;
 				completed.push(format!("{}: all live op lists of length {len} {}", cfg.name, if c { "complete" } else { "(time cap hit)" }));
+			}
+			Err(e) if e.starts_with("SEED-VIOLATION:") => {
+				all_complete = false;
 			}
 			Err(e) => {
 				eprintln!("machinery: {e}");
